@@ -28,15 +28,18 @@ def mc_cfg(role, family, depth, hbmin=1, hbmax=3, hbcfg=2, closems=1000, startse
             % (role, family, depth, hbmin, hbmax, hbcfg, closems, startseq, "EmitScn" if emit else ""))
 
 
+NOT_NUMBERS = ["3.", "5 ", " 5", "30.", "1e1", "0x1F", "18446744073709551646", "9223372036854775808", "1-", "--1", "2,", "4/", "1.0", "٣", "3\t"]
+
+
 def act(a, **kw):
     d = dict(a=a, seq=0, sq="ok", integ="none", hb=0, enc="0", cred=True, id=[], b=0, e=0, ms=0, mid="", midSeq=0)
     d.update(kw)
     return d
 
 
-def cfg(role, hbmin=1, hbmax=60, hbcfg=30, closems=1000, startseq=0, buf=10):
+def cfg(role, hbmin=1, hbmax=60, hbcfg=30, closems=1000, startseq=0, buf=10, savefailfrom=0):
     return dict(role=role, hbMin=hbmin, hbMax=hbmax, hbCfg=hbcfg, encCfg="0", allowed=["0"],
-                closeMs=closems, startSeq=startseq, buf=buf)
+                closeMs=closems, startSeq=startseq, buf=buf, saveFailFrom=savefailfrom)
 
 
 class Peer:
@@ -174,6 +177,16 @@ def gen_systematic():
                     st += [act("advance", ms=tin + tin // 10 + 1), act("advance", ms=delay), p(ans, id=[81], b=1, e=0),
                            act("advance", ms=tin - tin // 10 - 2), act("advance", ms=tin // 5 + 3), act("advance", ms=tin + tin // 10 + 1)]
                     out.append(dict(id="sys-%s-%d-answer-%s-%d" % (role[0], N, ans, delay), cfg=cfg(role, hbmin=1, hbmax=60, hbcfg=N, closems=1000), steps=st))
+            # (c) the application's message store starts refusing saves after the logon: nothing can be sent any more, the peer is
+            # silent: the disconnect still comes after two periods, and an inbound message in between still postpones it
+            for mid in ("none", "hbt", "app"):
+                p = Peer()
+                st = logged_on_prefix(role, N, p)
+                st += [act("advance", ms=tin + tin // 10 + tin // 20 + 1)]
+                if mid != "none":
+                    st += [p(mid), act("advance", ms=tin + tin // 10 + tin // 20 + 1)]
+                st += [act("advance", ms=tin + tin // 10 + tin // 20 + 5), act("advance", ms=tin)]
+                out.append(dict(id="sys-%s-%d-storefail-%s" % (role[0], N, mid), cfg=cfg(role, hbmin=1, hbmax=60, hbcfg=N, closems=1000, savefailfrom=2), steps=st))
             for call in ("llogout", "stop"):
                 for cross in ("hbt", "testreq", "app", "resend", "unknown"):
                     for closems in (500, 20000):
@@ -244,6 +257,19 @@ def gen_resend(rnd, n):
             e = rnd.choice([0, b, rnd.randint(0, last_guess + 2)])
             st.append(p("resend", b=b, e=e))
         out.append(dict(id="rs-%d" % k, cfg=cfg(role, startseq=start), steps=st))
+    # a second run of numbers on the same store: the application rewinds the outgoing counter between two logons; a retransmission
+    # then gives what was last sent under a number, byte for byte
+    for role in ("acceptor", "initiator"):
+        for n1, n2 in ((3, 2), (2, 4), (4, 4)):
+            p = Peer()
+            st = logged_on_prefix(role, 30, p)
+            st += [act("send") for _ in range(n1)] + [p("testreq", id=[66])]
+            st += [p("logout"), act("advance", ms=1500), act("resetout")]   # (later SendingTimes: the second run's messages differ from the first's)
+            st += [act("relogon")] if role == "initiator" else []
+            st += [p("logon", hb=30)]
+            st += [act("send") for _ in range(n2)] + [p("testreq", id=[67])]
+            st += [p("resend", b=1, e=0), p("resend", b=2, e=3), p("resend", b=1, e=n2 + 1)]
+            out.append(dict(id="rs-rewind-%s-%d-%d" % (role[0], n1, n2), cfg=cfg(role), steps=st))
     # gap pairs (expected, received)
     for role in ("acceptor", "initiator"):
         for first in range(1, 6):
@@ -372,7 +398,12 @@ def run_driver(run, binp, scns, name, testname="TestScenarios", extra_env=None):
             # a numeric field that cannot be parsed: half of the time "present without a value" instead of letters
             for i, a in enumerate(sc["steps"] if isinstance(sc.get("steps"), list) else []):
                 if isinstance(a, dict) and "a" in a and "empty" not in a:
-                    a["empty"] = (a.get("sq") == "nonnum" or a.get("integ") == "nonnum") and zlib.crc32(("%s#%d" % (sc.get("id"), i)).encode()) % 2 == 0
+                    nn = a.get("sq") == "nonnum" or a.get("integ") == "nonnum"
+                    h = zlib.crc32(("%s#%d" % (sc.get("id"), i)).encode())
+                    a["empty"] = nn and h % 4 == 0
+                    # other shapes of "not a number": digits with a stray character, blanks, exponents, hex, numerals beyond the
+                    # range of an int (2^64 + 30, 2^63); "" = letters
+                    a["numTxt"] = NOT_NUMBERS[(h // 4) % len(NOT_NUMBERS)] if nn and h % 4 in (1, 2) else ""
             f.write(json.dumps(sc) + "\n")
     shards = min(NCPU, max(1, len(scns) // 20))
     procs = []
@@ -400,6 +431,15 @@ def run_driver(run, binp, scns, name, testname="TestScenarios", extra_env=None):
             if m and "DRIVER-ERROR" not in txt and re.search(r"^github\.com/b2broker/simplefix-go[^\n]*\n\t/", txt[m.start():], re.M) \
                     and "verifharness" not in txt[m.start():m.start() + 4000].split("github.com/b2broker/simplefix-go")[0]:
                 raise LibraryPanic(m.group(1), txt[m.start():m.start() + 3000], name)
+            mh = re.search(r"^LIBRARY-HANG scenario (\S+) did not finish[^\n]*$", txt, re.M)
+            if mh:
+                stacks = txt[mh.end():]
+                # goroutines of the library that wait for a lock or a channel
+                blocked = re.findall(r"goroutine \d+ \[(?:sync\.Mutex\.Lock|sync\.RWMutex\.R?Lock|semacquire|chan send|chan receive|select)[^\]]*\]:\n(?:.*\n)*?\n", stacks)
+                lib = [b for b in blocked if "github.com/b2broker/simplefix-go" in b and "sync.(*" in b]
+                if lib:
+                    raise LibraryPanic("scenario %s never finished: a goroutine of the library is blocked for good on a lock" % mh.group(1),
+                                       "".join(lib)[:3000], name)
             raise Inconclusive("session driver failed (exit %d):\n%s" % (rc, txt[-3000:]))
         traces.append(tr)
     return traces
